@@ -286,8 +286,8 @@ Ltac bool_hyps :=
 (** [step_inv H]: H : step s e = Some s'.  Unfolds the rule of the event's kind
     (all kinds if [e_k e] is not known), destructs every guard and leaves
     s' as an explicit term over [tick s (e_t e)]. *)
-Ltac step_inv H :=
-  unfold step in H;
+Ltac step_inv_gen H first_do :=
+  unfold step in H; first_do;
   match type of H with
   | (if ?c then _ else _) = _ => destruct c eqn:?Hclk; [discriminate H|]
   end;
@@ -314,6 +314,10 @@ Ltac step_inv H :=
     assert (phase_of s r = None) by (unfold phase_of; rewrite Hq; reflexivity);
     assert (cancelled s r = false) by (unfold cancelled; rewrite Hq; reflexivity)
   end.
+
+Ltac step_inv H := step_inv_gen H idtac.
+(** the same when the kind of the event is known: Hk : e_k e = K ... *)
+Ltac step_inv_k H Hk := step_inv_gen H ltac:(rewrite Hk in H).
 
 Ltac proj :=
   cbn [targets lbs svcs svc_names tgt_names installed reqs clock tick
@@ -355,6 +359,11 @@ Lemma cancelled_upd_installed : forall r', cancelled (upd_installed st xi) r' = 
 Lemma cancelled_set_tstate : forall r', cancelled (set_tstate st t x ts') r' = cancelled st r'. Proof. reflexivity. Qed.
 Lemma cancelled_set_drains : forall r', cancelled (set_drains st t x ds) r' = cancelled st r'. Proof. reflexivity. Qed.
 End Proj.
+
+Lemma phase_of_mkSt : forall a b c d e f st h r, phase_of (mkSt a b c d e f (reqs st) h) r = phase_of st r.
+Proof. reflexivity. Qed.
+Lemma cancelled_mkSt : forall a b c d e f st h r, cancelled (mkSt a b c d e f (reqs st) h) r = cancelled st r.
+Proof. reflexivity. Qed.
 
 Lemma phase_of_arrive : forall st st' r c r',
   phase_of (upd_reqs st (nset (reqs st') r (mkR PArrived c))) r' = if Nat.eqb r' r then Some PArrived else phase_of st' r'.
@@ -413,7 +422,8 @@ Global Hint Rewrite targets_set_phase lbs_set_phase svcs_set_phase installed_set
   phase_of_tick phase_of_upd_targets phase_of_upd_lbs phase_of_upd_svcs phase_of_upd_installed
   phase_of_set_tstate phase_of_set_drains phase_of_taint phase_of_set_phase phase_of_arrive phase_of_mark
   cancelled_tick cancelled_upd_targets cancelled_upd_lbs cancelled_upd_svcs cancelled_upd_installed
-  cancelled_set_tstate cancelled_set_drains cancelled_taint cancelled_set_phase cancelled_mark : st.
+  cancelled_set_tstate cancelled_set_drains cancelled_taint cancelled_set_phase cancelled_mark
+  phase_of_mkSt cancelled_mkSt : st.
 
 Ltac fold_mark :=
   repeat match goal with
@@ -476,10 +486,10 @@ Definition rank (p : rphase) : nat :=
   | PEnded _ _ => 8 | PDone => 9
   end.
 
-(** the request has been claimed on a target *)
+(** the request is past its claim attempt: it cannot be claimed (again) *)
 Definition past_claim (p : rphase) : bool :=
   match p with
-  | PClaimed _ | PAtTarget _ | PReplied _ _ | PFailed _ _ | PEnded _ _ => true
+  | PRefused _ | PClaimed _ | PAtTarget _ | PReplied _ _ | PFailed _ _ | PEnded _ _ | PDone => true
   | _ => false
   end.
 
@@ -509,4 +519,22 @@ Proof.
        try match goal with Ho : outcome_status _ = Some _ |- _ => apply outcome_rank in Ho end;
        try match goal with Hq : r_phase _ = _ |- _ => rewrite Hq in * end;
        eexists; (split; [reflexivity|right; cbn; lia]).
+Qed.
+
+Lemma past_claim_rank : forall p, past_claim p = true <-> 5 <= rank p.
+Proof. intros p. destruct p; cbn; split; intros; try lia; try discriminate; auto. Qed.
+
+Lemma on_target_past : forall p t, on_target p = Some t -> past_claim p = true.
+Proof. intros p t H. destruct p; cbn in *; congruence. Qed.
+
+Lemma run_phase : forall tr s s' r p,
+  run step s tr = Some s' -> phase_of s r = Some p ->
+  exists p', phase_of s' r = Some p' /\ rank p <= rank p'.
+Proof.
+  induction tr as [|e tr IH]; intros s s' r p Hrun Hp; cbn in Hrun.
+  - inversion Hrun; subst. eauto.
+  - destruct (step s e) as [s1|] eqn:E; [|discriminate].
+    destruct (step_phase _ _ _ _ _ E Hp) as (p1 & Hp1 & Hr1).
+    destruct (IH _ _ _ _ Hrun Hp1) as (p' & Hp' & Hr'). exists p'. split; auto.
+    destruct Hr1 as [->|Hr1]; lia.
 Qed.
